@@ -53,6 +53,13 @@ def step (_ : Unit) (ws : List String) : Unit × String :=
     match optNat n, optNat r, parsePeers rest with
     | some n, some r, some ps => ((), tagNats "ok" ((calcClosest ps n r).map (·.1)))
     | _, _, _ => ((), "bad-op")
+  | "closegroup" :: c :: me :: rest =>
+    match c.toNat?, me.toNat?, parsePeers rest with
+    | some c, some me, some ps =>
+      match closeGroupSelect ps me (c != 0) with
+      | some r => ((), tagNats "ok" (r.map (·.1)))
+      | none => ((), "err notenough")
+    | _, _, _ => ((), "bad-op")
   | _ => ((), "bad-op")
 
 /-- model search: small checks of the regenerated definitions against the XOR metric -/
